@@ -17,7 +17,7 @@ CLAUSES = ('rollback-owner', 'rollback-value', 'stale', 'dirty-idle', 'serial', 
 DEVS = ('AliasCreating', 'SpBlobByName')        # the deviations whose clauses are this property's
 FOCUS = ('Rollback',)
 NEED = ['Modify', 'Link', 'Unlink', 'AddExplicit', 'Load', 'Savepoint', 'Rollback', 'Begin', 'CommitSp', 'CommitSpConflict',
-        'SavepointRaises', 'CommitSpRaises',
+        'SavepointRaises', 'CommitSpRaises', 'CommitSpStoreRaises',
         'Store', 'Stored', 'Vote', 'Finish', 'Abort', 'OtherCommit']
 
 
